@@ -222,6 +222,42 @@ Theorem C18_argument_at_token :
 Proof. exact RejectFacts.illegal_arguments_rejected. Qed.
 Print Assumptions C18_argument_at_token.
 
+(* a tag the test does not take / whose extension is not loaded, an ill-typed value in a test: reported at that token *)
+Theorem C18_test_argument_at_token :
+  forall T : tables,
+  twf_tables T = true ->
+  forall (text : bytes) (pre : list token) (tn tl : token) (a0toks : list token) 
+    (t : token) (rest : list token) (L : list bytes) (prev : option bytes) 
+    (k : nat) (d : cmddef) (a : argdef) (dl : cmddef) (args0 : list argument) 
+    (fN : frame) (ty : atype),
+  wf_prefix T (map strip_pos pre) L prev k ->
+  fst (lex text) = pre ++ tn :: tl :: a0toks ++ t :: rest ->
+  t_kind tn = TIdentifier ->
+  get_command_instance T L (t_val tn) = inl d ->
+  d_type d = CControl ->
+  d_accept_children d = true ->
+  d_args d = [a] ->
+  is_t1 a = true ->
+  t_kind tl = TIdentifier ->
+  get_command_instance T L (t_val tl) = inl dl ->
+  d_type dl = CTest ->
+  d_expected_first dl = None ->
+  iscomplete (new_frame dl (at_of a)) None = false ->
+  Forall arg_ok args0 ->
+  map strip_pos a0toks = flat_map arg_toks args0 ->
+  feed (new_frame dl (at_of a)) args0 L = FOk fN ->
+  iscomplete fN None = false ->
+  (t_kind t = TString \/ t_kind t = TMultiline) /\
+  ty = TyString /\ utf8_valid (t_val t) = true \/
+  t_kind t = TNumber /\ ty = TyNumber \/ t_kind t = TTag /\ ty = TyTag ->
+  match check_next_arg fN ty (VStr (t_val t)) true true L with
+  | CnaFalse => parse T text = Reject EUnexpectedToken (t_pos t) (Datatypes.length (t_val t))
+  | CnaErr e => parse T text = Reject e (t_pos t) (Datatypes.length (t_val t))
+  | _ => True
+  end.
+Proof. exact RejectFacts.test_argument_rejected. Qed.
+Print Assumptions C18_test_argument_at_token.
+
 (* every token after a given one, and the place of a lexical error, lie strictly after its first byte *)
 Theorem C18_lexer_moves_forward :
   forall (text : bytes) (a : list token) (t : token) (b : list token),
